@@ -17,7 +17,10 @@ import (
 	"verif/harness/evid"
 	"verif/harness/rig"
 
+	"github.com/attestantio/dirk/core"
+	"github.com/attestantio/dirk/rules"
 	"github.com/attestantio/dirk/services/locker"
+	e2wtypes "github.com/wealdtech/go-eth2-wallet-types/v2"
 )
 
 func goid() uint64 {
@@ -216,6 +219,16 @@ func C15(cfg Cfg) int {
 	}
 	run.Sample(map[string]any{"steering": "A=[k0,k1,k2] B=[k2,k1] hold A after lock 1 until B has 1 lock (budget 3ms)", "stress": "32 goroutines, ordered key subsets of 6 keys, single/batch attestation, proposal, generic, multisign"})
 	raceChild(run, cfg, "C15child", "race")
+	// Requests by public key on accounts created at run time, with the real fetcher, during registrations.
+	fres := runChild(cfg, bin, "C15fetch", filepath.Join(cfg.Work, "fetch"), 10*time.Minute, nil)
+	fn := absorbChild(run, fres, "", "")
+	run.Eval(run.Get("fetch_requests_completed"))
+	if fres.TimedOut && fn == 0 {
+		run.Inconclusive("C15fetch child exceeded its overall watchdog")
+	} else if (fres.Err != nil && fn == 0) || run.Get("fetch_signatures") == 0 || run.Get("fetch_registrations") == 0 {
+		run.Inconclusive(fmt.Sprintf("C15fetch child observed nothing: %v: %s", fres.Err, tail(fres.Out, 1500)))
+	}
+	raceChild(run, cfg, "C15fetch", "race")
 	return run.Finish()
 }
 
@@ -450,5 +463,155 @@ func c15Child(cfg Cfg) int {
 	if viol.Load() > 0 {
 		return 4
 	}
+	return 0
+}
+
+func init() { Children["C15fetch"] = c15Fetch }
+
+// c15Fetch drives signing requests that address accounts created after start-up by public key (single and
+// batched, overlapping selections in different orders) on a stack with the REAL account fetcher while further
+// accounts are registered with it, as the completion of key generations does.  Every request must complete.
+func c15Fetch(cfg Cfg) int {
+	raceMode := len(cfg.Args) > 0 && cfg.Args[0] == "race"
+	c, err := rig.NewCluster(rig.ClusterOpts{Dir: filepath.Join(cfg.Work, "cluster"), IDs: []uint64{1}, NDWallets: map[string][]string{"Wallet1": {"acct0", "acct1"}, "Empty": {}}})
+	if err != nil {
+		fmt.Println("cannot build cluster:", err)
+		return 3
+	}
+	st := c.Inst[1].Stack
+	bg := context.Background()
+	const nrt = 6
+	pubs := make([][]byte, nrt)
+	wallets := make([]e2wtypes.Wallet, nrt)
+	accounts := make([]e2wtypes.Account, nrt)
+	for i := 0; i < nrt; i++ {
+		name := fmt.Sprintf("Empty/rt%d", i)
+		pub, _, err := st.Process.OnGenerate(bg, rig.Client1(), name, []byte("pass"), 1, 1)
+		if err != nil {
+			fmt.Println("cannot create account:", err)
+			return 3
+		}
+		pubs[i] = pub
+		if wallets[i], accounts[i], err = st.Fetcher.FetchAccount(bg, name); err != nil {
+			fmt.Println("created account cannot be fetched:", err)
+			return 3
+		}
+	}
+	var completions, outstanding, signed, added atomic.Int64
+	stop := make(chan struct{})
+	stopWD := make(chan struct{})
+	go func() {
+		last, lastChange := int64(-1), time.Now()
+		for {
+			select {
+			case <-stopWD:
+				return
+			case <-time.After(500 * time.Millisecond):
+			}
+			if cur := completions.Load(); cur != last {
+				last, lastChange = cur, time.Now()
+				continue
+			}
+			if outstanding.Load() > 0 && time.Since(lastChange) > 10*time.Second {
+				buf := make([]byte, 1<<20)
+				dump := string(buf[:runtime.Stack(buf, true)])
+				where := "elsewhere"
+				for _, f := range []string{"fetcher/mem.(*Service).FetchAccount", "fetcher/mem.(*Service).AddAccount", "locker/syncmap.(*Service)"} {
+					if strings.Contains(dump, f) {
+						where = "in " + f
+						break
+					}
+				}
+				fmt.Printf("CHILD-VIOLATION %d signing requests made no progress for 10s while accounts were being registered (blocked %s)\n", outstanding.Load(), where)
+				fmt.Println(dump)
+				os.Exit(4)
+			}
+		}
+	}()
+	var wg sync.WaitGroup
+	var seq atomic.Uint64
+	seq.Store(10)
+	for w := 0; w < 12; w++ {
+		wg.Add(1)
+		wr := rand.New(rand.NewSource(cfg.Seed*131 + int64(w)))
+		go func() {
+			defer wg.Done()
+			for {
+				select {
+				case <-stop:
+					return
+				default:
+				}
+				outstanding.Add(1)
+				e := seq.Add(1)
+				if wr.Intn(2) == 0 {
+					res, sig := st.Signer.SignGeneric(bg, rig.Client1(), "", pubs[wr.Intn(nrt)], &rules.SignData{Data: Root32(byte(e)), Domain: Dom([]byte{9, 0, 0, 0}, 1)})
+					if res == core.ResultSucceeded && len(sig) == 96 {
+						signed.Add(1)
+					}
+				} else {
+					n := 2 + wr.Intn(3)
+					sel := wr.Perm(nrt)[:n]
+					keys := make([][]byte, n)
+					data := make([]*rules.SignBeaconAttestationData, n)
+					for i, k := range sel {
+						keys[i] = pubs[k]
+						data[i] = &rules.SignBeaconAttestationData{Domain: Dom(DomainAttester, 0), Slot: e * 32, BeaconBlockRoot: Root32(1),
+							Source: &rules.Checkpoint{Epoch: e, Root: Root32(2)}, Target: &rules.Checkpoint{Epoch: e + 1, Root: Root32(3)}}
+					}
+					ress, sigs := st.Signer.SignBeaconAttestations(bg, rig.Client1(), make([]string, n), keys, data)
+					for i := range ress {
+						if ress[i] == core.ResultSucceeded && i < len(sigs) && len(sigs[i]) == 96 {
+							signed.Add(1)
+						}
+					}
+				}
+				outstanding.Add(-1)
+				completions.Add(1)
+			}
+		}()
+	}
+	// Registrations: the accounts are registered again and again (what the end of a key generation does), at
+	// irregular instants.
+	for a := 0; a < 2; a++ {
+		wg.Add(1)
+		ar := rand.New(rand.NewSource(cfg.Seed*17 + int64(a)))
+		go func() {
+			defer wg.Done()
+			for {
+				select {
+				case <-stop:
+					return
+				default:
+				}
+				i := ar.Intn(nrt)
+				if err := st.Fetcher.AddAccount(bg, wallets[i], accounts[i]); err == nil {
+					added.Add(1)
+				}
+				for y := ar.Intn(20); y > 0; y-- {
+					runtime.Gosched()
+				}
+			}
+		}()
+	}
+	secs := cfg.N(6, 60)
+	if raceMode {
+		secs = cfg.N(4, 20)
+	}
+	time.Sleep(time.Duration(secs) * time.Second)
+	close(stop)
+	done := make(chan struct{})
+	go func() { wg.Wait(); close(done) }()
+	select {
+	case <-done:
+	case <-time.After(40 * time.Second):
+		// The watchdog above reports; give it time.
+		time.Sleep(15 * time.Second)
+	}
+	close(stopWD)
+	fmt.Printf("STAT fetch_requests_completed %d\nSTAT fetch_signatures %d\nSTAT fetch_registrations %d\n", completions.Load(), signed.Load(), added.Load())
+	fmt.Printf("RACE-CHILD operations %d\n", completions.Load())
+	fmt.Printf("DISTINCT by-key requests on run-time accounts during registrations: signed>0=%v\n", signed.Load() > 0)
+	c.Close()
 	return 0
 }
